@@ -51,6 +51,16 @@ def run_unit(u, tier, seed, registry, case=None):
                 from .crosscheck import crosscheck
                 cc = crosscheck(u, tier, seed)
                 r['crosscheck'] = cc
+                seen_rv = set()
+                for rv in cc.pop('real_violations', []):
+                    if rv['clause'] in seen_rv:
+                        continue
+                    seen_rv.add(rv['clause'])
+                    # CPython's own result breaks the postcondition on a sampled input (e.g. float rounding the exact
+                    # arithmetic of the encoding does not see): a candidate that counts once the replay confirms it
+                    r['obligations'].append({'id': '%s/crosscheck/%s' % (u.uid, rv['clause']), 'kind': 'post', 'result': 'candidate',
+                                             'backend': 'cpython run', 'solver_s': 0.0, 'instances': 1, 'clause': rv['clause'],
+                                             'cex': {'inputs': C.jsonable(rv['inputs']), '_raw_inputs': rv['inputs'], 'info': {}}})
                 if cc.get('disagreements'):
                     r['errors'].append('engine/CPython cross-check disagreement: %s' % cc['disagreements'][:2])
             except Exception as e:
